@@ -186,6 +186,12 @@ def mk_arr(aa, a, g=("1", "1", "0", "0")):
 def held(aa, a):
     """(native values, mask) as held by Array2D(values=a[0], mask=a[1]): masked entries are zero"""
     return a2out(mk_arr(aa, a))
+GEOM_CHK = GEOMS[1]
+def geom_kept(obj):
+    """the resized / padded / trimmed object keeps pixel scales and origin (objects are built with GEOM_CHK)"""
+    want = [float(Fraction(x)) for x in GEOM_CHK]
+    mask = obj if type(obj).__name__ == "Mask2D" else obj.mask
+    return tuple(mask.pixel_scales) == (want[0], want[1]) and tuple(mask.origin) == (want[2], want[3])
 def parity(s, t): return "".join("e" if (x - y) % 2 == 0 else "o" for x, y in zip(s, t))
 
 def run_case(inp):
@@ -193,7 +199,10 @@ def run_case(inp):
     import logging; logging.disable(logging.CRITICAL)
     from autoarray.structures.arrays import array_2d_util
     op = inp["op"]
-    ok = lambda f: (lambda v: f(v))
+    geom_bad = []
+    def keep(obj, conv):
+        if not geom_kept(obj): geom_bad.append(1)
+        return conv(obj)
     if op == "resize_u":
         m = np.array(inp["m"], dtype=float)
         out = call_res(lambda: zout(array_2d_util.resized_array_2d_from(
@@ -206,29 +215,29 @@ def run_case(inp):
         out = call_res(lambda: zout(array_2d_util.extracted_array_2d_from(array_2d=m, y0=r[0], y1=r[1], x0=r[2], x1=r[3])))
         coq = f"KExtractU {czarr(inp['m'])} {cz(r[0])} {cz(r[1])} {cz(r[2])} {cz(r[3])} {cres(out, czarr)}"
     elif op == "mask_resize":
-        out = call_res(lambda: bout(np.array(mk_mask(aa, inp["m"]).resized_from(new_shape=tuple(inp["rs"]), pad_value=inp["padv"]))))
+        out = call_res(lambda: keep(mk_mask(aa, inp["m"], GEOM_CHK).resized_from(new_shape=tuple(inp["rs"]), pad_value=inp["padv"]), lambda r: bout(np.array(r))))
         coq = f"KMaskResize {cbarr(inp['m'])} {cpair(inp['rs'])} {cz(inp['padv'])} {cres(out, cbarr)}"
     elif op == "arr_resize":
-        out = call_res(lambda: a2out(mk_arr(aa, inp["a"]).resized_from(new_shape=tuple(inp["rs"]), mask_pad_value=inp["mpv"])))
+        out = call_res(lambda: keep(mk_arr(aa, inp["a"], GEOM_CHK).resized_from(new_shape=tuple(inp["rs"]), mask_pad_value=inp["mpv"]), a2out))
         tally("arr_resize parity " + parity(inp["rs"], (len(inp["a"][0]), len(inp["a"][0][0]))))
         coq = f"KArrResize {ca2(held(aa, inp['a']))} {cpair(inp['rs'])} {cz(inp['mpv'])} {cres(out, ca2)}"
     elif op == "arr_pad":
-        out = call_res(lambda: a2out(mk_arr(aa, inp["a"]).padded_before_convolution_from(
-            kernel_shape=tuple(inp["k"]), mask_pad_value=inp["mpv"])))
+        out = call_res(lambda: keep(mk_arr(aa, inp["a"], GEOM_CHK).padded_before_convolution_from(
+            kernel_shape=tuple(inp["k"]), mask_pad_value=inp["mpv"]), a2out))
         coq = f"KArrPad {ca2(held(aa, inp['a']))} {cpair(inp['k'])} {cz(inp['mpv'])} {cres(out, ca2)}"
     elif op == "arr_trim":
-        out = call_res(lambda: a2out(mk_arr(aa, inp["a"]).trimmed_after_convolution_from(kernel_shape=tuple(inp["k"]))))
+        out = call_res(lambda: keep(mk_arr(aa, inp["a"], GEOM_CHK).trimmed_after_convolution_from(kernel_shape=tuple(inp["k"])), a2out))
         coq = f"KArrTrim {ca2(held(aa, inp['a']))} {cpair(inp['k'])} {cres(out, ca2)}"
     elif op == "pad_trim":
         k = tuple(inp["k"])
-        out = call_res(lambda: a2out(mk_arr(aa, inp["a"]).padded_before_convolution_from(
-            kernel_shape=k, mask_pad_value=inp["mpv"]).trimmed_after_convolution_from(kernel_shape=k)))
+        out = call_res(lambda: keep(mk_arr(aa, inp["a"], GEOM_CHK).padded_before_convolution_from(
+            kernel_shape=k, mask_pad_value=inp["mpv"]).trimmed_after_convolution_from(kernel_shape=k), a2out))
         tally("pad_trim kernel " + ("odd" if k[0] % 2 and k[1] % 2 else "even"))
         coq = f"KPadTrim {ca2(held(aa, inp['a']))} {cpair(k)} {cz(inp['mpv'])} {cres(out, ca2)}"
     elif op == "enlarge_shrink":
         h, w = len(inp["a"][0]), len(inp["a"][0][0])
-        out = call_res(lambda: a2out(mk_arr(aa, inp["a"]).resized_from(new_shape=tuple(inp["rs"]), mask_pad_value=inp["mpv"])
-                                     .resized_from(new_shape=(h, w), mask_pad_value=inp["mpv"])))
+        out = call_res(lambda: keep(mk_arr(aa, inp["a"], GEOM_CHK).resized_from(new_shape=tuple(inp["rs"]), mask_pad_value=inp["mpv"])
+                                    .resized_from(new_shape=(h, w), mask_pad_value=inp["mpv"]), a2out))
         tally("enlarge_shrink parity " + parity(inp["rs"], (h, w)))
         coq = f"KEnlargeShrink {ca2(held(aa, inp['a']))} {cpair(inp['rs'])} {cz(inp['mpv'])} {cres(out, ca2)}"
     elif op == "trimarr":
@@ -307,4 +316,4 @@ def run_case(inp):
         if out[0] == "ok": out = ("ok", [out[1][0], [[str(a), str(b)] for a, b in out[1][1]]])
     else:
         raise ValueError(op)
-    return {"coq": "(" + coq + ")", "out": out, "py_ok": None, "nontrivial": True, "kind": op}
+    return {"coq": "(" + coq + ")", "out": out, "py_ok": (False if geom_bad else None), "nontrivial": True, "kind": op}
